@@ -31,7 +31,7 @@ ASSUMPTIONS = ["the client cannot know whether a faulting write left: it counts 
                "connected-only (1 s); everything else idempotent (<=3 attempts, 30 s)",
                "+/-1 step and CHANGE have no public entry point: driven through the private "
                "_send_*_control_message helpers (sub-clause inconclusive if they vanish)"]
-REQUIRED_OBS = ["faults_hit_inflight", "retried_first_on_next_connection",
+REQUIRED_OBS = ["handshake_request_not_resent", "faults_hit_inflight", "retried_first_on_next_connection",
                 "dropped_after_budget", "expiry_boundary_cases", "api_commands_classified",
                 "nonidempotent_not_resent"]
 BUDGET = {"quick": 100, "thorough": 1500}
@@ -149,6 +149,13 @@ def cases(tier, seed):
                 yield {"k": "api_req", "gen": gen, "req": req, "fault": fault}
 
 
+    # a write fault on each write of the six-step handshake of the first connection
+    for gen in (4, 5):
+        for write in range(1, 19):
+            for lat, refuse in ((0.0, False), (0.5, False), (1.5, False), (0.0, True)):
+                yield {"k": "hs", "gen": gen, "write": write, "lat": lat, "refuse": refuse}
+
+
 # ------------------------------------------------------------ socket-level oracle
 
 def check_sock(gen, run):
@@ -245,6 +252,8 @@ def _single_fault_context(run, r):
 # ------------------------------------------------------------ API level
 
 def run_api(case):
+    if case["k"] == "hs":
+        return AW.handshake_fault_case(case)
     return AW.retry_case(case)
 
 
